@@ -289,6 +289,11 @@ namespace chaiscript {
 
     void add_conversion(const std::shared_ptr<detail::Type_Conversion_Base> &conversion) {
       chaiscript::detail::threading::unique_lock<chaiscript::detail::threading::shared_mutex> l(m_mutex);
+      if (m_conversions.count(conversion) != 0) {
+        // this very conversion object is registered already (a module that is applied again after
+        // set_state() removed the rest of it: conversions are not part of the saved state)
+        return;
+      }
       if (find_bidir(conversion->to(), conversion->from()) != m_conversions.end()) {
         throw exception::conversion_error(conversion->to(), conversion->from(), "Trying to re-insert an existing conversion!");
       }
